@@ -42,6 +42,27 @@ TEXTS = {"t1": "CREATE TABLE \"t1\" (a int, b varchar(3) DEFAULT 'x');\n",
          "t7": "CREATE TABLE c (x int); -- note one\r\nCREATE TABLE d (\r\n  y int, /* in */\r\n  z int\r\n);\r\n-- tail\r\n",
          # CRLF line ends AND a line break inside a quoted literal
          "t8": "CREATE TABLE e (\r\n  x int,\r\n  y varchar(20) DEFAULT 'first\r\nsecond'\r\n);\r\nCREATE TABLE f (z int);\r\n"}
+
+
+class _Texts(dict):
+    """'big:<bytes>:<parity>' -> a script of at least <bytes> UTF-8 bytes: a table, comment lines made of two-byte characters (so that every
+    read boundary of one parity falls INSIDE a character; <parity> shifts everything by one byte), a table in the middle and one at the end"""
+
+    def __missing__(self, k):
+        _, size, par = k.split(":")
+        size = int(size)
+        line = "-- " + "é" * 60 + "\n"
+        half = [line] * (size // (2 * len(line.encode("utf-8"))) + 1)
+        t = ("x" if par == "1" else "") + "CREATE TABLE big_a (a int, b varchar(3) DEFAULT 'é');\n" + "".join(half) + "CREATE TABLE big_m (m int);\n" + "".join(half) + \
+            "CREATE TABLE big_z (z int COMMENT 'Ж');\n"
+        if par == "1":
+            t = t.replace("xCREATE", "CREATE", 1).replace("-- ", "--  ", 1)
+        self[k] = t
+        return t
+
+
+TEXTS = _Texts(TEXTS)
+BIG = [2 ** k for k in range(9, 24)]
 ENC = ["utf-8", "utf-16", "latin-1", "cp1251"]
 NAMES = ["a.sql", "b.c.sql", "noext", "UP.SQL", "with space.sql", ".hidden.sql", "d.ddl", "e.hql", "f.bql", "g.txt",
          "b.v2.sql",  # shares the text before its first dot with b.c.sql: two inputs, two dumps
@@ -83,6 +104,13 @@ def gen_cases(tier):
                     for si in (2, 5):
                         cases.append({"kind": "api", "text": tk, "enc": "utf-8", "name": name, "target": ts, "dump": dump, "settings": si})
                     cases.append({"kind": "api", "text": tk, "enc": "utf-8", "name": name, "target": ts, "dump": dump, "settings": 0, "dotdir": True})
+    # scale sweep: files that are larger than every power-of-two read size 512 B .. 1 MiB (thorough .. 8 MiB), made of two-byte characters in
+    # both byte parities, in a stateless and a BOM-carrying encoding, with and without dump
+    for size in (BIG if tier == "thorough" else BIG[:12]):
+        for par in ("0", "1"):
+            for enc in ("utf-8", "utf-16"):
+                for dump in ((False, True) if size <= 2 ** 14 else (False,)):
+                    cases.append({"kind": "api", "text": "big:%d:%s" % (size, par), "enc": enc, "name": "a.sql", "target": "missing", "dump": dump, "settings": 0})
     for kind in ("file", "dir", "missing"):
         for n in range(0, 5):
             for f in itertools.combinations(FLAGS, n):
@@ -331,12 +359,17 @@ def describe(case):
     return case
 
 
+def _txt(case):
+    t = TEXTS[case["text"]]
+    return t if len(t) < 400 else t[:150] + " ...(%d characters)... " % len(t) + t[-80:]
+
+
 def snippet(case):
     if case["kind"] == "api":
         s, m = SETTINGS[case["settings"]]
         return ("# write %r (encoding %s) to <dir>/%s, then\nfrom simple_ddl_parser import parse_from_file, DDLParser\n"
                 "r = parse_from_file(path, encoding=%r, parser_settings=%r, dump=%r, dump_path=<target %s>, **%r)\n"
-                "assert r == DDLParser(text, **%r).run(**%r)\n" % (TEXTS[case["text"]], case["enc"], case["name"], case["enc"], s, case["dump"], case["target"], m, s, m))
+                "assert r == DDLParser(text, **%r).run(**%r)\n" % (_txt(case), case["enc"], case["name"], case["enc"], s, case["dump"], case["target"], m, s, m))
     if case["kind"] == "cli":
         return "# python -c 'from simple_ddl_parser.cli import main; main()' <%s> %s   in a directory holding the files %r" % (case["mode"], " ".join(case["flags"]), NAMES)
     return "# parse_from_file(<%s>, dump=True, dump_path=T) then parse_from_file(<%s>, dump=True, dump_path=T)" % tuple(case["names"])
